@@ -1937,6 +1937,12 @@ func (s *BgpServer) handleFSMMessage(peer *peer, e *fsmMsg) {
 		if notEstablished || beforeUptime {
 			return
 		}
+		// The peer may have been deleted while this message was waiting for
+		// the lock: its routes were dropped and nothing would withdraw them
+		// again, so a message of a peer that is gone must not be processed.
+		if p, ok := s.neighborMap[netip.MustParseAddr(peer.ID())]; !ok || p != peer {
+			return
+		}
 		switch m.Header.Type {
 		case bgp.BGP_MSG_ROUTE_REFRESH:
 			s.handleRouteRefresh(peer, e)
